@@ -535,7 +535,13 @@ struct C20 : Scenario {
         std::string cfg = "parent.cfg";
         bool expect_stop = true, expect_fail_status = false;
         auto argsbase = [&]() { auto a = argv_of(pl, cfg); a.push_back("--output"); a.push_back("out.h5"); return a; };
-        if (fault == "missing") { cfg = "nothere.cfg"; }
+        if (fault == "missing") {
+            // any name: the implicit default name given explicitly, the same name in other directories, no extension, absolute
+            const std::vector<std::string> names = {"nothere.cfg", "default.cfg", "./default.cfg", "sub/default.cfg", rc.workdir + "/nodir/default.cfg", "nothere", "other/parent.cfg", "default.cfg.bak"};
+            cfg = names[(size_t)farg % names.size()];
+            if (cfg == "sub/default.cfg") mkdir((rc.workdir + "/sub").c_str(), 0777);
+            o.probe("reach.missing_name." + std::string(cfg.find("default.cfg") != std::string::npos ? "default_cfg" : "other"));
+        }
         else if (fault == "directory") { cfg = "adir"; mkdir((rc.workdir + "/adir").c_str(), 0777); }
         else if (fault == "unreadable") { l.rt.fault_path = "parent.cfg"; l.rt.fault_kind = 1; l.rt.fault_nth = -1; l.rt.fault_errno = 13; }
         else if (fault == "empty") {
